@@ -35,32 +35,23 @@ Fixpoint email_tld (k : nat) (r : str) : bool :=
   | [] => false
   end.
 
-(* [a-z0-9.-]+ \. ...   [seen]: at least one character of the repeat has been consumed *)
-Fixpoint email_domain (seen : bool) (r : str) : bool :=
-  match r with
-  | [] => false
-  | c :: r' => (seen && (c =? href_email_dot)%N && email_tld 0 r') ||
-               (mem_N c href_email_domain && email_domain true r')
-  end.
-
-(* [a-z0-9._%+-]+ @ ... *)
-Fixpoint email_local (seen : bool) (s : str) : bool :=
+(* C+ l K: at least one character of the class C, then the literal l, then K.  Every split is tried (the
+   engine's backtracking).  [seen]: at least one character of the repeat has been consumed *)
+Fixpoint plus_lit (cls : char -> bool) (lit : char) (k : str -> bool) (seen : bool) (s : str) : bool :=
   match s with
   | [] => false
-  | c :: s' => (seen && (c =? href_email_at)%N && email_domain false s') ||
-               (mem_N c href_email_local && email_local true s')
+  | c :: s' => (seen && (c =? lit)%N && k s') || (cls c && plus_lit cls lit k true s')
   end.
 
-(* re_email.match(text) *)
-Definition email_match (text : str) : bool := email_local false text.
+(* re_email.match(text):  [a-z0-9._%+-]+ @ [a-z0-9.-]+ \. [a-z]{2,5} $ *)
+Definition email_match (text : str) : bool :=
+  plus_lit (fun c => mem_N c href_email_local) href_email_at
+           (plus_lit (fun c => mem_N c href_email_domain) href_email_dot (email_tld 0) false)
+           false text.
 
-(* re.match(r'\w+:', href) *)
-Fixpoint proto_scan (seen : bool) (s : str) : bool :=
-  match s with
-  | [] => false
-  | c :: s' => (seen && (c =? href_proto_colon)%N) || (in_ranges c href_proto_word && proto_scan true s')
-  end.
-Definition proto_match (s : str) : bool := proto_scan false s.
+(* re.match(r'\w+:', href): nothing is required after the colon *)
+Definition proto_match (s : str) : bool :=
+  plus_lit (fun c => in_ranges c href_proto_word) href_proto_colon (fun _ => true) false s.
 
 Definition s_dslash : str := [47; 47]%N.                                 (* '//' *)
 Definition s_http : str := [104; 116; 116; 112; 58; 47; 47]%N.           (* 'http://' *)
